@@ -140,7 +140,7 @@ def showTarget (t : ExtTarget) : String :=
   s!"status={match t.status with | some c => toString c | none => "nil"} prefix={S t.pathPrefix})"
 
 /-- label of a target on `req` lines -/
-def targetLabel (t : ExtTarget) : String := (if t.http then "http:" else "grpc:") ++ String.ofList t.cluster
+def targetLabel (t : ExtTarget) : String := showTarget t
 
 /-- The service index the harness registers (hostname, namespace). -/
 def registry : List (Str × Str) :=
